@@ -345,6 +345,10 @@ class ModelLoader(object):
             
         metaclass = metamodel.find_metaclass(stmt.kind)
             
+        if len(stmt.values) < len(stmt.names):
+            raise ParsingException("%s:%d:too few values" % (stmt.filename,
+                                                             stmt.lineno))
+            
         schema_unames = [name.upper() for name in metaclass.attribute_names]
         inst_unames = [name.upper() for name in stmt.names]
         
